@@ -13,16 +13,34 @@ theorem Sys.setRing_th (s : Sys) (t : Nat) (r : Ring Cmd) (t2 : Nat) : (s.setRin
     · rfl
     · split <;> rfl
 
-theorem Sys.register_th_other (s s' : Sys) (t t2 : Nat) (h : s.register t = some s') (hne : t2 ≠ t) :
-    s'.th t2 = s.th t2 := by
+/-- what `register` can do: nothing, or mark the thread registered and add one empty receiver
+    (to the registry, or — during the report phase — to the receivers the cycle retains) -/
+theorem Sys.register_some (s s' : Sys) (t : Nat) (h : s.register t = some s') :
+    s' = s ∨ ∃ rxs' cyc', s' = { (s.setTh t { s.th t with registered := true }) with rxs := rxs', cyc := cyc' } := by
   unfold Sys.register at h
   split at h
-  · cases h; rfl
-  · split at h
-    · cases h
-    · cases h
-      show (Sys.th { (s.setTh t _) with rxs := _ } t2) = _
-      exact Sys.th_setTh_other _ _ _ _ hne
+  · cases h; exact .inl rfl
+  · cases hc : s.cyc with
+    | none =>
+      rw [hc] at h
+      simp only [Option.some.injEq] at h
+      subst h
+      exact .inr ⟨s.rxs ++ [(t, Ring.new Consts.ringCap)], none, by simp [Sys.setTh, hc]⟩
+    | some cs =>
+      rw [hc] at h
+      dsimp only at h
+      split at h
+      · cases h
+      · simp only [Option.some.injEq] at h
+        subst h
+        exact .inr ⟨s.rxs, _, rfl⟩
+
+theorem Sys.register_th_other (s s' : Sys) (t t2 : Nat) (h : s.register t = some s') (hne : t2 ≠ t) :
+    s'.th t2 = s.th t2 := by
+  rcases Sys.register_some s s' t h with rfl | ⟨r, c, rfl⟩
+  · rfl
+  · show (Sys.th (s.setTh t _) t2) = _
+    exact Sys.th_setTh_other _ _ _ _ hne
 
 theorem Sys.sendCmd_th_other (s : Sys) (t t2 : Nat) (cmd : Cmd) (f : Bool) (hne : t2 ≠ t) :
     (s.sendCmd t cmd f).th t2 = s.th t2 := by
@@ -429,16 +447,10 @@ def Th.loc (th : Th) : Stack × List Guard × Nat := (th.stack, th.guards, th.pr
 theorem Sys.register_loc (s s' : Sys) (t t2 : Nat) (h : s.register t = some s') : (s'.th t2).loc = (s.th t2).loc := by
   by_cases hne : t2 = t
   · subst hne
-    unfold Sys.register at h
-    split at h
-    · cases h; rfl
-    · split at h
-      · cases h
-      · cases h
-        show (Sys.th { (s.setTh t2 _) with rxs := _ } t2).loc = _
-        have : (Sys.th { (s.setTh t2 { s.th t2 with registered := true }) with rxs := s.rxs ++ [(t2, Ring.new Consts.ringCap)] } t2)
-            = { s.th t2 with registered := true } := Sys.th_setTh_same _ _ _
-        rw [this]; rfl
+    rcases Sys.register_some s s' t2 h with rfl | ⟨r, c, rfl⟩
+    · rfl
+    · show (Sys.th (s.setTh t2 _) t2).loc = _
+      rw [Sys.th_setTh_same]; rfl
   · rw [Sys.register_th_other s s' t t2 h hne]
 
 theorem Sys.sendCmd_loc (s : Sys) (t t2 : Nat) (cmd : Cmd) (f : Bool) : ((s.sendCmd t cmd f).th t2).loc = (s.th t2).loc := by
@@ -509,12 +521,7 @@ theorem Sys.setRing_adapters (s : Sys) (t : Nat) (r : Ring Cmd) : (s.setRing t r
     · split <;> rfl
 
 theorem Sys.register_adapters (s s' : Sys) (t : Nat) (h : s.register t = some s') : s'.adapters = s.adapters := by
-  unfold Sys.register at h
-  split at h
-  · cases h; rfl
-  · split at h
-    · cases h
-    · cases h; rfl
+  rcases Sys.register_some s s' t h with rfl | ⟨r, c, rfl⟩ <;> rfl
 
 theorem Sys.sendCmd_adapters (s : Sys) (t : Nat) (cmd : Cmd) (f : Bool) : (s.sendCmd t cmd f).adapters = s.adapters := by
   unfold Sys.sendCmd
